@@ -233,9 +233,9 @@ def coqchk(prop):
 # ------------------------------------------------------------------------------------------------
 # pipeline: programs -> implementation / model / monitors
 
-SIZES = {"quick": dict(wf=150, fault=114, free=120, known=9, chains=25, chain_exh=3),
-         "thorough": dict(wf=7000, fault=5700, free=6000, known=60, chains=300, chain_exh=6),
-         "search": dict(wf=2500, fault=1900, free=2500, known=30, chains=100, chain_exh=4)}
+SIZES = {"quick": dict(wf=150, fault=114, free=120, known=9, chains=25, chain_exh=3, perm_bases=40, perms=3, stub_bases=30),
+         "thorough": dict(wf=7000, fault=5700, free=6000, known=60, chains=300, chain_exh=6, perm_bases=1500, perms=4, stub_bases=1200),
+         "search": dict(wf=2500, fault=1900, free=2500, known=30, chains=100, chain_exh=4, perm_bases=500, perms=3, stub_bases=400)}
 
 
 def corpus_programs():
@@ -323,6 +323,35 @@ def pipeline(seed, tier):
         batch.append((ser(p), m))
     for p, m in gen.gen_chains_random(seed + 1, sz["chains"]) + gen.gen_chains_exhaustive(seed + 2, sz["chain_exh"]):
         batch.append((ser(p), m))
+    # derived programs (C16: permutations; C17: stubbed bodies), linked to their base by index
+    import random as _random
+    drng = _random.Random(seed * 7 + 3)
+    nb = len(batch)
+    n_perm = n_stub = 0
+    for i in range(nb):
+        text, meta = batch[i]
+        if meta.get("stream") not in ("wf", "fault", "free", "corpus"):
+            continue
+        tree = None
+        if n_perm < sz["perm_bases"] or n_stub < sz["stub_bases"]:
+            tree = parse(text)
+        if tree is None:
+            break
+        if n_perm < sz["perm_bases"] and gen.eligible_for_permutation(tree):
+            n_perm += 1
+            if tier == "thorough" and len(tree) - 1 <= 5:
+                perms = list(gen.all_permutations_of(tree))
+                exhaustive = True
+            else:
+                perms = [gen.permutation_of(tree, drng) for _ in range(sz["perms"])]
+                exhaustive = False
+            for q in perms:
+                batch.append((ser(q), {"stream": "perm", "base": i, "all": exhaustive}))
+        nfn = sum(1 for t in tree[1:] if t[0] == "fn")
+        if n_stub < sz["stub_bases"] and 2 <= nfn <= 5:
+            n_stub += 1
+            for v, keep in gen.stub_variants(tree):
+                batch.append((ser(v), {"stream": "stub", "base": i, "keep": keep}))
     r.programs = [p for p, _ in batch]
     r.metas = [m for _, m in batch]
     if os.path.exists(done):
@@ -575,6 +604,7 @@ def check(prop, tier, seed):
         cov["samples"] = stats.get("samples", [])
         cov["distribution"] = stats.get("distribution", {})
         cov["monitor"] = stats.get("monitor", {})
+        cov["cross"] = stats.get("cross", {})
         cov["exhaustive"] = False
     else:
         cov["evaluations"] = 0
